@@ -3,8 +3,8 @@ import IdenaModel.Drivers.Util
 /-! Driver for channel C08 (fork adoption).
 ops: `new base` | `own id height parent empty seed txs` (the node's canonical chain, genesis first) |
 `fb id height parent empty idupd valid seed cert txs` (one bundle of the peer answer, in arrival order;
-cert ∈ n|e|ok|bad) | `sort` | `cfs` | `vsc` | `process` | `apply` | `head` | `canon h` | `cert id` | `txidx t` |
-`reverted`.
+cert ∈ n|e|ok|bad) | `sort` | `cfs` | `vsc` | `process` | `apply` | `head` | `canon h` | `cert id` (the raw certificate record) | `txidx t` |
+`serve storeCertRange askedIds` (ReadBlockForForkedPeer) | `reverted`.
 The abstract application state is the list of applied block ids; a block body is valid iff the harness marked it
 as an untampered block of its branch; a non-empty certificate is acceptable iff its class is `ok`. -/
 namespace IdenaModel.Drv.C08
@@ -44,6 +44,11 @@ def showV : Verdict → String
 
 def showIds (l : List Nat) : String :=
   if l.isEmpty then "-" else ",".intercalate (l.map toString)
+
+/-- what the certificate index holds: `-` no record, `e` a record without signatures, `c` a certificate -/
+def certClass : Option Cert → String
+  | none => "-"
+  | some c => if c.sigs.isEmpty then "e" else "c"
 
 def step (st : St) (line : String) : St × String :=
   match splitSp line with
@@ -101,7 +106,7 @@ def step (st : St) (line : String) : St × String :=
     | _, _ => (st, "bad-op")
   | ["cert", id] =>
     match st.node, id.toNat? with
-    | some n, some id => (st, if certEmpty (n.certs id) then "n" else "c")
+    | some n, some id => (st, certClass (n.certs id))
     | _, _ => (st, "bad-op")
   | ["txidx", t] =>
     match st.node, t.toNat? with
@@ -111,6 +116,11 @@ def step (st : St) (line : String) : St × String :=
         | .found bh i => s!"{bh} {i}"
         | .panic => "panic")
     | _, _ => (st, "bad-op")
+  | ["serve", scr, asked] =>
+    match st.node, scr.toNat?, parseTxs asked with
+    | some n, some scr, some asked =>
+      (st, " ".intercalate ("srv" :: (serveFork n scr asked).map (fun b => s!"{b.block.hash}:{certClass b.cert}")))
+    | _, _, _ => (st, "bad-op")
   | ["reverted"] => (st, showIds st.reverted)
   | _ => (st, "bad-op")
 
